@@ -314,8 +314,12 @@ for qcls in (CU._NoresetSignal, CU._NoresetVariable):
 
 
 # ---- SequentialContext.__call__ (and std.sequential, which goes through it): what the created process is built from ----------
-# The process gets the context's clock, reset, step condition, comment, capture mode -- and an on_reset action: the one
-# given at the call, otherwise the one REGISTERED on the context (constructor, with_params, std.sequential(..., on_reset=)).
+# The process gets the context's clock, reset, step condition, comment, capture mode -- and its on_reset actions: "registered
+# on_reset actions run", so EVERY action registered for the process: the ones REGISTERED on the context (constructor,
+# with_params, std.sequential(..., on_reset=)) and the ones given at the call (`@ctx(on_reset=...)`), each once.  (Until
+# session 6 this contract said "the one given at the call, otherwise the registered one" -- that was the code's behaviour, not
+# the statement's; the library itself uses the call form in std.continuous_counter(start_at_limit=True), which dropped the
+# user's action from the counter process.)
 def _user_fn():
     pass
 
@@ -328,6 +332,10 @@ def _call_action():
     pass
 
 
+def _second_registered_action():
+    pass
+
+
 def call_spec(registered, at_call):
     def spec(sx, self, fn=None, **kw):
         it = sx.it
@@ -336,9 +344,12 @@ def call_spec(registered, at_call):
             if res != "PROCESS" or len(it.impl_calls) != 1:
                 return False
             a, k = it.impl_calls[0]
-            want_on_reset = _call_action if at_call else (_registered_action if registered else None)
+            want = ([_registered_action, _second_registered_action] if registered == "list" else [_registered_action] if registered else []) + ([_call_action] if at_call else [])
+            got = k.get("on_reset")
+            got = [] if got is None else list(got) if isinstance(got, (list, tuple)) else [got]
+            same = len(got) == len(want) and all(any(g is w for g in got) for w in want)
             return (list(a) == ["CLK", "RESET"] and k.get("step_cond") == "STEP" and k.get("comment") == "COMMENT" and k.get("capture_lazy") == "LAZY"
-                    and k.get("wrapped_fn") is _user_fn and k.get("on_reset") is want_on_reset)
+                    and k.get("wrapped_fn") is _user_fn and same)
 
         return C.Pred(holds, "process built from the context's clock / reset / step condition and the effective on_reset action")
 
@@ -357,13 +368,13 @@ def _decorate(fn):
 I.register_model(_decorate, lambda it, fn: "PROCESS")
 
 con = contract("cohdl.std._context:SequentialContext.__call__", PROPS)
-for registered in (False, True):
+for registered in (False, True, "list"):
     for at_call in (False, True):
         def mk_ctx(env, registered=registered):
-            return SObj(SC.SequentialContext, _clk="CLK", _reset="RESET", _step_cond="STEP", _on_reset=_registered_action if registered else None, _comment="COMMENT", _attributes=None, _capture_lazy="LAZY")
+            return SObj(SC.SequentialContext, _clk="CLK", _reset="RESET", _step_cond="STEP", _on_reset=[_registered_action, _second_registered_action] if registered == "list" else _registered_action if registered else None, _comment="COMMENT", _attributes=None, _capture_lazy="LAZY")
 
         kw = {"on_reset": VAL(_call_action, "action")} if at_call else {}
-        c = Case(f"on_reset:{'registered' if registered else 'none-registered'},{'given-at-call' if at_call else 'not-given-at-call'}", [Built([], mk_ctx, lambda a: "<ctx>", lambda a: None), VAL(_user_fn, "fn")], call_spec(registered, at_call), kwargs=kw)
+        c = Case(f"on_reset:{'list-registered' if registered == 'list' else 'registered' if registered else 'none-registered'},{'given-at-call' if at_call else 'not-given-at-call'}", [Built([], mk_ctx, lambda a: "<ctx>", lambda a: None), VAL(_user_fn, "fn")], call_spec(registered, at_call), kwargs=kw)
         c.native = False
         c.models = [(SC.SequentialContext.__dict__["copy"], lambda it, self: self), (SC._sequential_impl, _seq_impl)]
         c.interp_flags = {"class_call_models": {SC._ContextData: lambda it, args, kw: SObj(SC._ContextData, f_args=list(args), f_kw=dict(kw))}}
@@ -372,7 +383,7 @@ for registered in (False, True):
             it.impl_calls = []
 
         c.setup = setup_call
-        c.custom_replay = "contracts.c04_misc.replay_registered_on_reset"
+        c.custom_replay = "contracts.c04_misc.replay_registered_on_reset" if not (registered and at_call) else "contracts.c04_misc.replay_on_reset_replaced"
         con.cases.append(c)
 
 _ON_RESET_DESIGN = '''
@@ -489,3 +500,41 @@ for method in ("__bool__", "active_high_signal", "active_low_signal"):
 
             c.setup = setup
             con.cases.append(c)
+
+
+_ON_RESET_BOTH_DESIGN = '''
+from __future__ import annotations
+from cohdl import Entity, Port, Bit, std
+
+class Top(Entity):
+    clk = Port.input(Bit)
+    rst = Port.input(Bit)
+    a = Port.input(Bit)
+    o = Port.output(Bit, default=False)
+    seen_a = Port.output(Bit, default=False)
+    seen_b = Port.output(Bit, default=False)
+
+    def architecture(self):
+        def action_a():
+            self.seen_a <<= True
+
+        def action_b():
+            self.seen_b <<= True
+
+        ctx = std.SequentialContext(std.Clock(self.clk), std.Reset(self.rst), on_reset=action_a)
+
+        @ctx(on_reset=action_b)
+        def proc():
+            self.o <<= self.a
+
+t = std.VhdlCompiler.to_string(Top)
+print("A_RUNS" if "buffer_seen_a <= '1'" in t else "A_DROPPED", "B_RUNS" if "buffer_seen_b <= '1'" in t else "B_DROPPED")
+'''
+
+
+def replay_on_reset_replaced(payload):
+    """an action registered on the context AND one given at the decorator call: both run in the reset branch"""
+    from contracts.c06_extra import _run_design
+
+    rc, out = _run_design(_ON_RESET_BOTH_DESIGN)
+    return {"reproduced": rc == 0 and "DROPPED" in out, "detail": out[-200:]}
